@@ -60,6 +60,8 @@ def run(shard, ctx):
                   if abs(n) > shard["k"]]
         # names a thousand and more accidentals long (pure and mixed): "whatever the input's accidentals"
         longs = [L + "#" * 1100, L + "b" * 1300, L + "#b" * 700, L + "b#" * 900 + "b"]
+        # ... and long names that agree in letter, first accidental and length and differ in what they add up to
+        longs += [L + "#" * (40 - f_) + "b" * f_ for f_ in (0, 5, 1, 20, 39)] + [L + "b" * (64 - f_) + "#" * f_ for f_ in (0, 7, 2)]
         for n in names + longs:
             for fname in T.CONSTRUCTORS:
                 check_constructor(ctx, fname, n)
